@@ -15,6 +15,7 @@ from mc.ref import xsd as R
 from mc.structcheck import Collector, opj
 
 BFS_BUDGET = {'quick': 600, 'thorough': 10000}
+DEEP_BUDGET = {'quick': 2500, 'thorough': 40000}
 
 
 def snap(el):
@@ -221,6 +222,14 @@ def run(tier):
     r1 = explore.r1_prepare()
     guards = []
     specs = [explore.Spec(T, 'full', BFS_BUDGET[tier], 'C14') for T in impl.TYPES]
+    # the types with repeated names, over their small mixed alphabet (additions, removals), one to two levels deeper: the
+    # states in which the element's two views disagree on the pinned tree (note: tie, tie, grace; removal inside a
+    # repeated group) are reached here, and a copy must still serialise exactly like its original there
+    for T in impl.TYPES:
+        da = explore.deep_alphabet(T)
+        if da:
+            sp = explore.Spec(T, 'deep', DEEP_BUDGET[tier], 'C14', sigma=da)
+            specs.append(sp)
     res = explore.run_bfs(specs, structcheck.FACTORIES)
     tot = collections.Counter()
     ost = collections.Counter()
@@ -230,7 +239,7 @@ def run(tier):
         run_.add_violations(r['vio'])
         tot['states'] += r['states']
         tot['transitions'] += r['transitions']
-        per_type[r['T']] = {'depth': r['depth'], 'states': r['states'], 'transitions': r['transitions']}
+        per_type.setdefault(r['T'], {})[r['profile']] = {'depth': r['depth'], 'states': r['states'], 'transitions': r['transitions']}
         for k, v in r['ostats'].items():
             ost[k] += v
     names = sorted(R.partwise_elements())
